@@ -56,6 +56,25 @@ def short(q):
     return q.rsplit("::", 1)[-1] if q else q
 
 
+_SUBST = {}
+
+
+class substituting:
+    """context manager: render variables (by declaration id) as the given replacement text"""
+
+    def __init__(self, mapping):
+        self.m = mapping
+
+    def __enter__(self):
+        global _SUBST
+        self.old = _SUBST
+        _SUBST = dict(self.m)
+
+    def __exit__(self, *a):
+        global _SUBST
+        _SUBST = self.old
+
+
 def txt(n, depth=0):
     """canonical pseudo-source rendering of an expression/statement (over resolved names)"""
     if n is None:
@@ -73,6 +92,8 @@ def txt(n, depth=0):
         return "(%s)%s" % (n.get("to", ""), txt(c[0], d) if c else "")
     if k == "DeclRefExpr":
         if "var" in n:
+            if _SUBST and n.get("did") in _SUBST:
+                return _SUBST[n["did"]]
             return n["var"]
         if "fn" in n:
             return short(n["fn"])
